@@ -152,7 +152,7 @@ impl<Endpoint: Ord + Clone> BlockHandler<Endpoint> {
             .and_then(|x| x.ok());
         let maybe_response_block1 = Self::negotiate_block_size_if_necessary(
             request_block1.as_ref(),
-            Self::compute_message_size_hack(&mut request.message),
+            Self::compute_message_size_hack(&mut request.message)?,
             request.message.payload.len(),
             max_total_message_size,
         )?;
@@ -334,7 +334,9 @@ impl<Endpoint: Ord + Clone> BlockHandler<Endpoint> {
                 if let Some(request_block2) =
                     Self::negotiate_block_size_if_necessary(
                         state.last_request_block2.as_ref(),
-                        Self::compute_message_size_hack(&mut response.message),
+                        Self::compute_message_size_hack(
+                            &mut response.message,
+                        )?,
                         response.message.payload.len(),
                         self.config.max_total_message_size,
                     )?
@@ -358,15 +360,18 @@ impl<Endpoint: Ord + Clone> BlockHandler<Endpoint> {
 
     /// Hack to work around the lack of an API to compute the size of a message
     /// before producing it.
-    fn compute_message_size_hack(packet: &mut Packet) -> usize {
+    fn compute_message_size_hack(
+        packet: &mut Packet,
+    ) -> Result<usize, HandlingError> {
         let moved_payload = mem::take(&mut packet.payload);
-        let size_sans_payload = packet
-            .to_bytes()
-            .expect("Internal error encoding packet")
-            .len();
+        // The budget check happens in the caller; here only the size is
+        // needed, so do not apply (and panic on) the default size limit.
+        let size_sans_payload =
+            packet.to_bytes_unlimited().map(|bytes| bytes.len());
         packet.payload = moved_payload;
 
-        size_sans_payload + packet.payload.len()
+        Ok(size_sans_payload.map_err(HandlingError::internal)?
+            + packet.payload.len())
     }
 
     fn negotiate_block_size_if_necessary(
